@@ -15,6 +15,7 @@ import GeoProofs.Lemmas.C05Winding
 import GeoProofs.Lemmas.C05PConvex
 import GeoProofs.Lemmas.C05PRotate
 import GeoProofs.Lemmas.C05PFloat
+import GeoProofs.Lemmas.TRANArea
 import Mathlib.Tactic.NormNum
 
 namespace Geo.Proofs.C05
@@ -1192,5 +1193,25 @@ example : |flTwiceSignedRingArea (fun x => x * (1 + 1 / 1024))
     norm_num [detMags, sumRat]
   rw [e1, e2] at h
   exact h
+
+/-! ### TRAN: the area model is the term read off area.rs -/
+
+/-- [T] (translator tie) `twice_signed_ring_area` (length and closedness guards, shift to the first coordinate, the
+accumulating loop `tmp = tmp + line.map_coords(|c| c - shift).determinant()` over `lines()` as a left fold),
+`get_linestring_area`, `Polygon::{signed_area, unsigned_area}` (fold over the interiors, sign from the exterior),
+`MultiPolygon::{signed_area, unsigned_area}` and `Triangle::signed_area`, regenerated from the Rust bodies on this run,
+equal the hand-written model (for the triangle: the model's sum of three shifted determinants and the source's single
+cross product are the same rational number). -/
+theorem area_eq_source :
+    (∀ r, twiceSignedRingArea r = Gen.twiceSignedRingArea r) ∧
+    (∀ r, ringArea r = Gen.getLinestringArea r) ∧
+    (∀ q : Poly, q.signedArea = Gen.polygonSignedArea q) ∧
+    (∀ q : Poly, q.unsignedArea = Gen.polygonUnsignedArea q) ∧
+    (∀ ps, multiPolySigned ps = Gen.multiPolygonSignedArea ps) ∧
+    (∀ ps, multiPolyUnsigned ps = Gen.multiPolygonUnsignedArea ps) ∧
+    (∀ a b c, triSignedArea a b c = Gen.triangleSignedArea a b c) :=
+  ⟨Geo.Proofs.TRANArea.twiceSignedRingArea_eq, Geo.Proofs.TRANArea.ringArea_eq, Geo.Proofs.TRANArea.polySignedArea_eq,
+   Geo.Proofs.TRANArea.polyUnsignedArea_eq, Geo.Proofs.TRANArea.multiPolySigned_eq,
+   Geo.Proofs.TRANArea.multiPolyUnsigned_eq, Geo.Proofs.TRANArea.triSignedArea_eq⟩
 
 end Geo.Proofs.C05
